@@ -31,7 +31,14 @@ for d in sorted(glob.glob(V + "/seeded/*/")):
     repl = sorted(set(l.strip()[8:60] for v in res.values() for l in v["lines"] if l.startswith("  replay")))
     rows.append((sid, pid, meta["detected"], ",".join(meta["detected_by"]), "; ".join(labels)[:120], "; ".join(repl)[:80], meta.get("what_it_breaks", "")[:110]))
     print(sid, meta["detected"], meta["detected_by"], flush=True)
-if not only:
+rows = []
+for d in sorted(glob.glob(V + "/seeded/*/")):
+    meta = json.load(open(d + "meta.json"))
+    res = meta.get("check_result") or {}
+    labels = sorted(set(l.split(" in ")[0].replace("  obligation ", "") for v in res.values() for l in v.get("lines", []) if l.startswith("  obligation")))
+    repl = sorted(set(l.strip()[8:60] for v in res.values() for l in v.get("lines", []) if l.startswith("  replay")))
+    rows.append((os.path.basename(d.rstrip("/")), meta["property"], meta.get("detected"), ",".join(meta.get("detected_by") or []), "; ".join(labels)[:120], "; ".join(repl)[:80], (meta.get("what_it_breaks") or "")[:110].replace("|", "/").replace("\n", " ")))
+if True:
     with open(V + "/seeded/SUMMARY.md", "w") as f:
         f.write("| id | property | detected | by check | failing obligations | replay | what it breaks |\n|---|---|---|---|---|---|---|\n")
         for r in rows:
